@@ -1101,3 +1101,10 @@ B('C17', 'class lists joined the other way round', CONGC,
 B('C14', 'forward step closes the goal by the new fact', 'server/method.py',
   "            state.set_line(id, 'apply_theorem', args=data['theorem'], prevs=prevs)\n\n        id2 = id.incr_id(1)\n        new_id = state.find_goal(state.get_proof_item(id2).th, id2)\n        if new_id is not None:\n            state.replace_id(id2, new_id)",
   "            state.set_line(id, 'apply_theorem', args=data['theorem'], prevs=prevs)\n\n        id2 = id.incr_id(1)\n        new_id = state.find_goal(state.get_proof_item(id2).th, id2)\n        if new_id is not None:\n            state.replace_id(id2, id)", 'C14.S9', 'redirect')
+B('C13', 'apply_tactic closes the new subgoals in forward order', 'server/method.py',
+  "        for item in reversed(new_prf.items):\n            if item.rule == 'sorry':", "        for item in new_prf.items:\n            if item.rule == 'sorry':", 'C13.A14', 'apply_tactic')
+B('C14', 'introduction closes every line of the new block that stands earlier in the proof', 'server/method.py',
+  "        for item in reversed(list(cur_item.subproof.items)):\n            if item.rule == 'sorry':\n                new_id = state.find_goal(state.get_proof_item(item.id).th, item.id)\n                if new_id is not None:\n                    state.replace_id(item.id, new_id)",
+  "        for item in reversed(list(cur_item.subproof.items)):\n            new_id = state.find_goal(state.get_proof_item(item.id).th, item.id)\n            if new_id is not None:\n                state.replace_id(item.id, new_id)", 'C14.S10', 'introduction.apply')
+N('C13', 'apply_tactic walks over a reversed copy', 'server/method.py',
+  "        for item in reversed(new_prf.items):\n            if item.rule == 'sorry':", "        for item in reversed(list(new_prf.items)):\n            if item.rule != 'sorry':\n                continue\n            if True:")
